@@ -437,7 +437,7 @@ func (p *twkbParser) nextLineString() (LineString, error) {
 
 func (p *twkbParser) parsePolygon() (Polygon, error) {
 	if p.isEmpty {
-		return NewPolygon(nil), nil
+		return Polygon{}.ForceCoordinatesType(p.ctype), nil
 	}
 	return p.nextPolygon()
 }
@@ -482,12 +482,16 @@ func (p *twkbParser) nextPolygon() (Polygon, error) {
 		ls := NewLineString(NewSequence(coords, p.ctype))
 		rings = append(rings, ls)
 	}
+	if len(rings) == 0 {
+		// NewPolygon can't infer the coordinates type without any rings.
+		return Polygon{}.ForceCoordinatesType(p.ctype), nil
+	}
 	return NewPolygon(rings), nil
 }
 
 func (p *twkbParser) parseMultiPoint() (MultiPoint, error) {
 	if p.isEmpty {
-		return NewMultiPoint(nil), nil
+		return MultiPoint{}.ForceCoordinatesType(p.ctype), nil
 	}
 	return p.nextMultiPoint()
 }
@@ -510,12 +514,15 @@ func (p *twkbParser) nextMultiPoint() (MultiPoint, error) {
 		}
 		pts = append(pts, pt)
 	}
+	if len(pts) == 0 {
+		return MultiPoint{}.ForceCoordinatesType(p.ctype), nil
+	}
 	return NewMultiPoint(pts), nil
 }
 
 func (p *twkbParser) parseMultiLineString() (MultiLineString, error) {
 	if p.isEmpty {
-		return NewMultiLineString(nil), nil
+		return MultiLineString{}.ForceCoordinatesType(p.ctype), nil
 	}
 	return p.nextMultiLineString()
 }
@@ -538,12 +545,15 @@ func (p *twkbParser) nextMultiLineString() (MultiLineString, error) {
 		}
 		lines = append(lines, ls)
 	}
+	if len(lines) == 0 {
+		return MultiLineString{}.ForceCoordinatesType(p.ctype), nil
+	}
 	return NewMultiLineString(lines), nil
 }
 
 func (p *twkbParser) parseMultiPolygon() (MultiPolygon, error) {
 	if p.isEmpty {
-		return NewMultiPolygon(nil), nil
+		return MultiPolygon{}.ForceCoordinatesType(p.ctype), nil
 	}
 	return p.nextMultiPolygon()
 }
@@ -566,12 +576,15 @@ func (p *twkbParser) nextMultiPolygon() (MultiPolygon, error) {
 		}
 		polys = append(polys, poly)
 	}
+	if len(polys) == 0 {
+		return MultiPolygon{}.ForceCoordinatesType(p.ctype), nil
+	}
 	return NewMultiPolygon(polys), nil
 }
 
 func (p *twkbParser) parseGeometryCollection() (GeometryCollection, error) {
 	if p.isEmpty {
-		return NewGeometryCollection(nil), nil
+		return GeometryCollection{}.ForceCoordinatesType(p.ctype), nil
 	}
 	return p.nextGeometryCollection()
 }
@@ -596,6 +609,9 @@ func (p *twkbParser) nextGeometryCollection() (GeometryCollection, error) {
 		}
 		p.pos += nbytes // Sub-parser's geometry has been read, so ensure it is skipped.
 		geoms = append(geoms, g)
+	}
+	if len(geoms) == 0 {
+		return GeometryCollection{}.ForceCoordinatesType(p.ctype), nil
 	}
 	return NewGeometryCollection(geoms), nil
 }
